@@ -7,8 +7,8 @@
 Steps, all in a scratch worktree of /repo outside /repo and /verif:
   1. the patch applies to /repo's HEAD, the tree builds, the existing suite passes;
   2. the demonstration fails with the patch and passes without it;
-then the patch is applied to /repo itself, the registered checks are run (evidence and replays
-diverted to /var/tmp), and /repo is restored. The result is written to seeded/<seed-id>/.
+then the registered checks are run against the patched scratch worktree (VERIF_REPO; evidence and replays
+diverted to /var/tmp) and the worktree is removed. The result is written to seeded/<seed-id>/.
 """
 import json, os, shutil, subprocess, sys, time
 
@@ -113,17 +113,11 @@ def main():
         rec["confirmed"] = built and ok and all(clean) and not any(patched)
         if not rec["confirmed"]:
             rec["why"] = "needs: builds, suite passes, demo passes 3/3 clean and fails 3/3 patched; got build=%s suite=%s clean=%s patched=%s; %s" % (built, ok, clean, patched, tailout[-600:])
-    finally:
-        sh("git -C %s worktree remove --force %s" % (REPO, wt))
-        sh("git -C %s worktree prune" % REPO)
-    if rec.get("confirmed"):
-        st = sh("git -C %s status --porcelain" % REPO)[1].strip()
-        if st:
-            rec["why"] = "/repo is not clean, not running the checks: " + st
-            return finish(rec, src, sid)
-        sh("git -C %s apply %s" % (REPO, patch))
-        try:
-            env = dict(os.environ, VERIF_EVIDENCE_DIR="/var/tmp/vf-seed-evidence", VERIF_REPLAY_DIR="/var/tmp/vf-seed-replays/" + sid)
+        if rec.get("confirmed"):
+            # run the registered checks against the patched scratch worktree (VERIF_REPO): /repo itself stays untouched,
+            # so several seeds can be evaluated at once and alongside a background run
+            sh("git checkout -- . && git clean -fdq && git apply %s" % patch, cwd=wt)
+            env = dict(os.environ, VERIF_REPO=wt, VERIF_EVIDENCE_DIR="/var/tmp/vf-seed-evidence/" + sid, VERIF_REPLAY_DIR="/var/tmp/vf-seed-replays/" + sid)
             for c in checks:
                 t0 = time.time()
                 p = subprocess.run(["./check", c, "--tier", tier], cwd=VERIF, env=env, capture_output=True, text=True)
@@ -131,11 +125,11 @@ def main():
                 first = [l for l in p.stdout.splitlines() if l.startswith("violation found") or l.startswith("race report") or "regression replay fails" in l]
                 rec["verdicts"][c] = {"tier": tier, "exit": p.returncode, "detected": p.returncode == 1 and bool(viol), "wall_s": round(time.time() - t0, 1),
                                       "first": (first[0][:600] if first else "")}
-                rec["ran"].append("patched /repo: ./check %s --tier %s -> exit %d" % (c, tier, p.returncode))
-        finally:
-            sh("git -C %s checkout -- ." % REPO)
-            sh("git -C %s clean -fdq" % REPO)
-            shutil.rmtree("/var/tmp/vf-seed-evidence", ignore_errors=True)
+                rec["ran"].append("patched scratch worktree: VERIF_REPO=<worktree> ./check %s --tier %s -> exit %d" % (c, tier, p.returncode))
+            shutil.rmtree("/var/tmp/vf-seed-evidence/" + sid, ignore_errors=True)
+    finally:
+        sh("git -C %s worktree remove --force %s" % (REPO, wt))
+        sh("git -C %s worktree prune" % REPO)
     return finish(rec, src, sid)
 
 
